@@ -221,11 +221,18 @@ func TestVerifC06A(t *testing.T) {
 			}
 		}
 	}
-	maxSize := 2
-	if verifkit.Thorough() {
-		maxSize = 3
+	// quick: all multisets of <= 2 records over the 12 types with a fixed tag per count; thorough: all
+	// multisets of <= 2 over the 24 types and of <= 3 over the 12
+	var small []rec
+	for _, t := range types {
+		if (t.Count == 1) == (t.Tag == "x") {
+			small = append(small, t)
+		}
 	}
-	ms := multisets(types, maxSize)
+	ms := multisets(small, 2)
+	if verifkit.Thorough() {
+		ms = append(multisets(types, 2), multisets(small, 3)...)
+	}
 	// plus a fixed family of 3- and 4-record multisets forcing every kind of collision
 	ms = append(ms,
 		[]rec{{"acgt", "a", 1, "x"}, {"acgt", "a", 2, "y"}, {"acgt", "b", 1, "x"}},
